@@ -8,6 +8,8 @@ import (
 	"fmt"
 	"io"
 	"net/http"
+	"os"
+	"os/exec"
 	"sort"
 	"strings"
 
@@ -18,6 +20,7 @@ import (
 )
 
 func init() {
+	subcommands["c19worker"] = c19Worker
 	register("C19", checkC19, replayC19)
 	freeruns["C19"] = freerunC19
 }
@@ -105,6 +108,11 @@ func c19Build(cfg c19Cfg) *restful.Container {
 	// registered PUT before GET: the Allow header of a 405 lists them in this order
 	ws.Route(ws.PUT("/other/{name}").If(cond).To(echo("other-put")))
 	ws.Route(ws.GET("/other/{name}").If(cond).To(echo("other")))
+	// templates beyond literals and plain variables: a regular expression, a custom verb (CurlyRouter
+	// documents it; RouterJSR311 treats the text literally), a tail wildcard
+	ws.Route(ws.GET("/re/{n:[0-9]+}").To(echo("re")))
+	ws.Route(ws.GET("/verb/{id}:go").To(echo("verb")))
+	ws.Route(ws.GET("/files/{t:*}").To(echo("files")))
 	// an entity negotiated between two representations
 	ws.Route(ws.GET("/ent").Produces(restful.MIME_XML, restful.MIME_JSON).To(func(req *restful.Request, resp *restful.Response) {
 		resp.WriteEntity(c19Ent{"negotiated who=" + fmt.Sprint(req.Attribute("who"))})
@@ -162,6 +170,10 @@ func c19Q() []h.Req {
 		// matched exactly by the negotiation code)
 		{Method: "GET", Segs: []string{"api", "ent"}, Hdr: [][2]string{{"X-Who", "hal"}, {"Accept", "application/xml;Q=0.1, application/json"}}},
 		{Method: "GET", Segs: []string{"api", "ent"}, Hdr: [][2]string{{"X-Who", "ivy"}, {"Accept", "application/xml;q=0.1, application/json"}}},
+		{Method: "GET", Segs: []string{"api", "ent"}, Hdr: [][2]string{{"X-Who", "jo"}, {"Accept", "application/xml"}}},
+		{Method: "GET", Segs: []string{"api", "re", "42"}, Hdr: [][2]string{{"X-Who", "kim"}}},
+		{Method: "GET", Segs: []string{"api", "verb", "7:go"}, Hdr: [][2]string{{"X-Who", "lou"}}},
+		{Method: "GET", Segs: []string{"api", "files", "a", "b.txt"}, Hdr: [][2]string{{"X-Who", "max"}}},
 	}
 }
 
@@ -262,10 +274,23 @@ func c19Cfgs(tier string) []c19Cfg {
 	return out
 }
 
-func checkC19(run *h.Run) {
-	q := c19Q()
+// c19Shard is the work of one worker process: one configuration x entry point x trace setting.
+// Trace and the compressor provider are package-level switches, so a shard owns its process.
+type c19ShardOut struct {
+	States, Trans int64
+	Outcomes      []string
+	Issues        []c19Issue
+}
+
+type c19Issue struct {
+	Class string  `json:"class"`
+	Msg   string  `json:"msg"`
+	Case  c19Case `json:"case"`
+}
+
+func c19Seqs(tier string, nq int) [][]int {
 	depth := 3
-	if run.Tier == "thorough" {
+	if tier == "thorough" {
 		depth = 4
 	}
 	var seqs [][]int
@@ -277,77 +302,138 @@ func checkC19(run *h.Run) {
 		if len(cur) == depth {
 			return
 		}
-		for i := range q {
+		for i := 0; i < nq; i++ {
 			rec(append(cur, i))
 		}
 	}
 	rec(nil)
-	// the 1000-fold repetition of each request
-	type rep struct{ i, n int }
+	return seqs
+}
+
+func c19RunShard(tier string, cfg c19Cfg, serve, trace bool) c19ShardOut {
+	var out c19ShardOut
+	q := c19Q()
+	seqs := c19Seqs(tier, len(q))
+	bad := func(class, msg string, cs c19Case) {
+		if len(out.Issues) < 50 {
+			out.Issues = append(out.Issues, c19Issue{class, msg, cs})
+		}
+	}
+	rs.Quiet(false)
+	cleanPackageState() // first call: the state every history starts from
+	// fresh-container responses with trace off are the reference for everything else
+	fresh := make([]string, len(q))
+	for i := range q {
+		cleanPackageState()
+		rs.Quiet(false)
+		k := c19Do(c19Build(cfg), q[i], serve)
+		fresh[i] = k
+		out.Outcomes = append(out.Outcomes, k)
+		if !trace && strings.Contains(k, "CHANGED-") {
+			bad("request-state-changed", fmt.Sprintf("%+v ; %v : the handler's own parameters / attributes / selected route changed while it ran: %s", cfg, q[i], k), c19Case{cfg, []int{i}, serve, false, k, ""})
+		}
+	}
+	for _, seq := range seqs {
+		cleanPackageState()
+		rs.Quiet(trace)
+		w := c19Build(cfg)
+		got := ""
+		for _, i := range seq {
+			got = c19Do(w, q[i], serve)
+		}
+		out.States++
+		out.Trans += int64(len(seq))
+		if cfg.Kind == "encoding" {
+			if ms := c19Ledger.report(true); len(ms) > 0 {
+				bad("compressor-ledger", fmt.Sprintf("%+v serve=%v ; after %v : %s", cfg, serve, seq, ms[0]), c19Case{cfg, seq, serve, trace, ms[0], ""})
+			}
+		}
+		last := seq[len(seq)-1]
+		if want := fresh[last]; got != want {
+			bad("history-dependence", fmt.Sprintf("%+v serve=%v trace=%v ; after %v the request %v is answered %s ; on a fresh container (trace off) %s", cfg, serve, trace, seq[:len(seq)-1], q[last], got, want),
+				c19Case{cfg, seq, serve, trace, got, want})
+		}
+	}
+	if !trace {
+		// the 1000-fold repetition of each request
+		cleanPackageState()
+		rs.Quiet(trace)
+		w := c19Build(cfg)
+		for i := range q {
+			got := ""
+			for n := 0; n < 1000; n++ {
+				got = c19Do(w, q[i], serve)
+			}
+			out.States++
+			out.Trans += 1000
+			if want := fresh[i]; got != want {
+				bad("thousandth-request", fmt.Sprintf("%+v serve=%v ; the 1000th %v is answered %s ; the first %s", cfg, serve, q[i], got, want), c19Case{cfg, []int{i}, serve, false, got, want})
+			}
+		}
+	}
+	rs.Quiet(false)
+	return out
+}
+
+func lastBytes(s string, n int) string {
+	if len(s) > n {
+		return s[len(s)-n:]
+	}
+	return s
+}
+
+func c19Worker(args []string) {
+	var ci int
+	fmt.Sscan(args[1], &ci)
+	out := c19RunShard(args[0], c19Cfgs(args[0])[ci], args[2] == "true", args[3] == "true")
+	data, _ := json.Marshal(out)
+	os.Stdout.Write(data)
+}
+
+func checkC19(run *h.Run) {
+	q := c19Q()
+	depth := 3
+	if run.Tier == "thorough" {
+		depth = 4
+	}
 	var states, trans int64
 	cfgs := c19Cfgs(run.Tier)
 	outcomes := h.NewDistinctSet(100000)
-	rs.Quiet(false)
-	cleanPackageState() // first call: the state every history starts from
+	type shard struct {
+		ci           int
+		serve, trace bool
+	}
+	var shards []shard
 	for _, serve := range []bool{false, true} {
-		// fresh-container responses with trace off are the reference for everything else
-		rs.Quiet(false)
-		fresh := map[string]string{}
-		for _, cfg := range cfgs {
-			for i := range q {
-				cleanPackageState()
-				rs.Quiet(false)
-				k := c19Do(c19Build(cfg), q[i], serve)
-				fresh[fmt.Sprint(cfg, i)] = k
-				outcomes.Add(k)
-				if strings.Contains(k, "CHANGED-") {
-					run.Violate("request-state-changed", "", fmt.Sprintf("%+v ; %v : the handler's own parameters / attributes / selected route changed while it ran: %s", cfg, q[i], k), c19Case{cfg, []int{i}, serve, false, k, ""}, nil)
-				}
+		for _, trace := range []bool{false, true} {
+			for ci := range cfgs {
+				shards = append(shards, shard{ci, serve, trace})
 			}
 		}
-		for _, trace := range []bool{false, true} {
-			// the encoding configuration sets the package-wide provider, trace is a package switch:
-			// configurations are therefore explored one after the other, never concurrently
-			rs.Quiet(trace)
-			for _, cfg := range cfgs {
-				for _, seq := range seqs {
-					cleanPackageState()
-					rs.Quiet(trace)
-					w := c19Build(cfg)
-					got := ""
-					for _, i := range seq {
-						got = c19Do(w, q[i], serve)
-					}
-					states++
-					trans += int64(len(seq))
-					if cfg.Kind == "encoding" {
-						if ms := c19Ledger.report(true); len(ms) > 0 {
-							run.Violate("compressor-ledger", "", fmt.Sprintf("%+v serve=%v ; after %v : %s", cfg, serve, seq, ms[0]), c19Case{cfg, seq, serve, trace, ms[0], ""}, nil)
-						}
-					}
-					last := seq[len(seq)-1]
-					if want := fresh[fmt.Sprint(cfg, last)]; got != want {
-						run.Violate("history-dependence", "", fmt.Sprintf("%+v serve=%v trace=%v ; after %v the request %v is answered %s ; on a fresh container (trace off) %s", cfg, serve, trace, seq[:len(seq)-1], q[last], got, want),
-							c19Case{cfg, seq, serve, trace, got, want}, nil)
-					}
-				}
-				if !trace {
-					cleanPackageState()
-					rs.Quiet(trace)
-					w := c19Build(cfg)
-					for i := range q {
-						got := ""
-						for n := 0; n < 1000; n++ {
-							got = c19Do(w, q[i], serve)
-						}
-						states++
-						trans += 1000
-						if want := fresh[fmt.Sprint(cfg, i)]; got != want {
-							run.Violate("thousandth-request", "", fmt.Sprintf("%+v serve=%v ; the 1000th %v is answered %s ; the first %s", cfg, serve, q[i], got, want), c19Case{cfg, []int{i}, serve, false, got, want}, nil)
-						}
-					}
-				}
-			}
+	}
+	self, _ := os.Executable()
+	results := make([]c19ShardOut, len(shards))
+	h.Parallel(len(shards), func(_, i int) {
+		sh := shards[i]
+		cmd := exec.Command(self, "c19worker", run.Tier, fmt.Sprint(sh.ci), fmt.Sprint(sh.serve), fmt.Sprint(sh.trace))
+		var ob, eb bytes.Buffer
+		cmd.Stdout, cmd.Stderr = &ob, &eb
+		if err := cmd.Run(); err != nil {
+			run.Broken(fmt.Sprintf("worker for %+v failed: %v: %s", sh, err, lastBytes(eb.String(), 1500)))
+			return
+		}
+		if err := json.Unmarshal(ob.Bytes(), &results[i]); err != nil {
+			run.Broken(fmt.Sprintf("worker for %+v: output unreadable: %v", sh, err))
+		}
+	})
+	for _, r := range results {
+		states += r.States
+		trans += r.Trans
+		for _, k := range r.Outcomes {
+			outcomes.Add(k)
+		}
+		for _, is := range r.Issues {
+			run.Violate(is.Class, "", is.Msg, is.Case, nil)
 		}
 	}
 	rs.Quiet(false)
@@ -364,7 +450,7 @@ func checkC19(run *h.Run) {
 	run.Cov["distinct_nontrivial"] = states
 	run.Cov["distinct_outcomes"] = outcomes.Len()
 	run.Cov["exhaustive"] = true
-	run.Cov["rule"] = fmt.Sprintf("E2: configurations {plain, 3 container + service + route filters, CORS with computed methods, OPTIONS filter, encoding with bounded(1) provider} x {CurlyRouter, RouterJSR311} x entry {Dispatch, ServeHTTP} x trace {off, on}: every sequence over the request set Q (%d requests: two GETs on one template, POST entity, 404, 405, CORS preflight, a handler that dispatches a nested request, a second template with other methods incl. its preflight and 405, a second service, a plain handler behind HandleWithFilter, an entity negotiated between XML and JSON under two Accept headers that differ only in letter case) of length <= %d on one container, plus the 1000-fold repetition of each request; the last response (status, all headers, decoded body with echoed parameters / attribute / selected route) must equal the response on a fresh container with trace off. E3 (instrumented): every pair (thorough: also triples) of Q concurrently, all schedules within the preemption bound, same oracle per request, happens-before race detection; then the free-running -race pass. Every history is non-trivial.", len(q), depth)
+	run.Cov["rule"] = fmt.Sprintf("E2: configurations {plain, 3 container + service + route filters, CORS with computed methods, OPTIONS filter, encoding with bounded(1) provider} x {CurlyRouter, RouterJSR311} x entry {Dispatch, ServeHTTP} x trace {off, on}: every sequence over the request set Q (%d requests: two GETs on one template, POST entity, 404, 405, CORS preflight, a handler that dispatches a nested request, a second template with other methods incl. its preflight and 405, a second service, a plain handler behind HandleWithFilter, an entity negotiated between XML and JSON under two Accept headers that differ only in letter case and once as XML, routes with a regular-expression variable, a custom verb and a tail wildcard) of length <= %d on one container, plus the 1000-fold repetition of each request; the last response (status, all headers, decoded body with echoed parameters / attribute / selected route) must equal the response on a fresh container with trace off. E3 (instrumented): every pair (thorough: also triples) of Q concurrently, all schedules within the preemption bound, same oracle per request, happens-before race detection; then the free-running -race pass. Every history is non-trivial.", len(q), depth)
 	run.Assume = []string{"every history starts from the same package-level state (restored between histories)", "differential: the fresh-container response is the reference; handlers also self-check that their own view does not change while they run"}
 	if f := e3Part["C19"]; f != nil {
 		f(run)
